@@ -38,6 +38,7 @@ def run(ck):
     ck.rule("C06.R4", "scope walk follows parent links; from_root reverses", floor=3)
     ck.rule("C06.R7", "a filtered layer's current span comes from the thread's entered-span stack, not from parent links (as C07.R3)", floor=1)
     ck.rule("C06.R6", "collector wrappers forward enter/exit/new_span/current_span and the reference counting that keeps ancestors alive (as C09.R1/R2)", floor=15)
+    ck.rule("C06.R9", "enter / exit / current_span / new_span reach the registry through Dispatch unchanged (as C09.R4)", floor=4)
     ck.rule("C06.R5", "captured span traces hold counted handles and are read back through the handle's own collector", floor=2)
     ck.rule("C06.R8", "every macro form hands the written `parent:` (a span, or None for an explicit root) to the constructor, and only contextual forms use the current span", floor=300)
     r1(ck, F)
@@ -46,6 +47,8 @@ def run(ck):
     r4(ck, F)
     r5(ck, F)
     r8(ck)
+    from rules import C09 as _C09
+    _C09.dispatch_forwarding(ck, F, rid="C06.R9", only={"enter", "exit", "current_span", "new_span"})
     from rules import C07
     C07.lookup_current_fallback(ck, F, rid="C06.R7")
     # enter/exit/new_span/current_span reach the registry's per-thread stack only through forwarding wrappers (C09.R1/R2)
